@@ -220,6 +220,8 @@ impl Lex {
                         _ => ()
                     }
                 }
+                // where the rest of the digits starts: the sign goes in front of the prefix
+                let digits_at = self.tmp.len();
                 while let Some(c) = self.peek_char() {
                     if c.is_ascii_whitespace() {
                         break;
@@ -293,6 +295,13 @@ impl Lex {
                             10
                         }
                     );
+                    // from_str_radix takes a sign of its own: `0x-5` is not a literal
+                    if self.tmp.get(digits_at..).map_or(false, |d| d.starts_with(|c| c == '-' || c == '+')) {
+                        return Err(Xerr::ParseError {
+                            msg: PARSE_INT_ERRMSG,
+                            substr,
+                        });
+                    }
                     let i =
                         Xint::from_str_radix(&self.tmp, radix).map_err(|_| Xerr::ParseError {
                             msg: PARSE_INT_ERRMSG,
